@@ -86,12 +86,17 @@ def to_csv(val):
     # Make sure all individual values do not contain
     # leading or trailing whitespaces.
     unicode_values = list(map(str.strip, map(str, val)))
+    # A single value is stored as it is; any comma or double quote
+    # it contains is part of the value (see from_csv).
+    if len(unicode_values) == 1:
+        return unicode_values[0]
+
     stream = StringIO()
     writer = csv.writer(stream, dialect="excel")
     writer.writerow(unicode_values)
-    # Strip any csv.writer added carriage return line feeds
-    # and double quotes before saving.
-    csv_string = stream.getvalue().strip().strip('"')
+    # Strip any csv.writer added carriage return line feeds before saving.
+    # The double quotes belong to the values that contain a comma or a quote.
+    csv_string = stream.getvalue().strip()
     if len(unicode_values) > 1:
         csv_string = "[" + csv_string + "]"
     return csv_string
